@@ -9,9 +9,16 @@
    The specification is declarative: plain list membership, no sorting, no search, and it
    speaks about the tag SET (a relation key -> value), not about a tag list.
 
-   Modelling decision, stated once: a tag whose value is the empty string counts as absent.
-   (Tags.Find documents "" as "not found"; the property text itself says "any other non-empty
-   area value".) *)
+   Two readings of the rules are defined here and kept apart:
+   - [published_polygon]: the LITERAL rule of the property text and of the published table
+     (osmtogeojson): a listed key counts when it is PRESENT with a value other than "no" —
+     an empty value is a value.  (For the area tag the text itself says "non-empty".)
+   - [spec_polygon]: the same with an empty value read as absent, which is all that a lookup
+     through Tags.Find (it returns "" for "not found") can see.
+   They agree on every tag set in which no listed key carries an empty value
+   (Proofs.published_area_iff_spec_area); on the others the code follows the second reading and
+   therefore deviates from the first: known finding "empty-value-on-listed-key"
+   (Properties: C18_empty_value_refuted). *)
 From Coq Require Import String List Bool Arith ZArith.
 Import ListNotations.
 Open Scope string_scope.
@@ -138,3 +145,46 @@ Fixpoint nodupb (l : list string) : bool :=
   end.
 
 Definition keys (ts : list (string * string)) : list string := map fst ts.
+
+(* ------------------------------------------------------------------ *)
+(* The literal published rule: presence, not non-emptiness             *)
+(* ------------------------------------------------------------------ *)
+
+Definition published_area (S : list srule) (ts : list (string * string)) : Prop :=
+  ~ has ts "area" "no" /\
+  ((exists v, has ts "area" v /\ v <> "") \/
+   (exists k c vals v, In (k, c, vals) S /\ has ts k v /\ v <> "no" /\ rule_ok c vals v)).
+
+Definition published_polygon (nodes : list Z) (ts : list (string * string)) : Prop :=
+  closed_ring nodes /\ published_area SpecTable ts.
+
+(* no listed key is present with an empty value *)
+Definition no_empty_listed (ts : list (string * string)) : Prop :=
+  forall k c vals, In (k, c, vals) SpecTable -> ~ has ts k "".
+
+Definition no_empty_listedb (ts : list (string * string)) : bool :=
+  forallb (fun r : srule =>
+             let '(k, _, _) := r in
+             negb (existsb (fun t => String.eqb (fst t) k && String.eqb (snd t) "") ts))
+          SpecTable.
+
+(* boolean form over an OPTIONAL lookup (None = the key is absent) *)
+Definition lookup_opt (ts : list (string * string)) (k : string) : option string :=
+  match filter (fun t => String.eqb (fst t) k) ts with
+  | [(_, v)] => Some v
+  | _ => None
+  end.
+
+Definition psrule_fires (oval : string -> option string) (r : srule) : bool :=
+  let '(k, c, vals) := r in
+  match oval k with
+  | Some v => negb (String.eqb v "no") && rule_okb c vals v
+  | None => false
+  end.
+
+Definition published_areab (S : list srule) (oval : string -> option string) : bool :=
+  let a := match oval "area" with Some v => v | None => "" end in
+  negb (String.eqb a "no") && (negb (String.eqb a "") || existsb (psrule_fires oval) S).
+
+Definition published_polygonb (nodes : list Z) (oval : string -> option string) : bool :=
+  closed_ringb nodes && published_areab SpecTable oval.
